@@ -42,8 +42,62 @@ static int64_t first_ts(uint32_t l, uint32_t c) {       /* first timestamp cover
 int64_t jls_raw_chunk_tell(struct jls_raw_s * self) { (void) self; return pos; }
 int32_t jls_raw_chunk_seek(struct jls_raw_s * self, int64_t offset) { (void) self; if (offset <= 0) { return JLS_ERROR_IO; } pos = offset; return 0; }
 
+#ifdef MODE_UTC_ITERATE
+/* jls_core_utc walks the level-1 INDEX chunks (header only), steps to the SUMMARY chunk that follows each, and hands its entries out */
+#define SUM_OF(c) (IDX_OFF(1, c) + 4)
+int32_t jls_raw_rd_header(struct jls_raw_s * self, struct jls_chunk_header_s * hdr) {
+    (void) self;
+    for (uint32_t c = 0; c < MAXC; ++c) {
+        if (c < cnt[1] && pos == IDX_OFF(1, c)) {
+            memset(hdr, 0, sizeof(*hdr));
+            hdr->tag = JLS_TAG_TRACK_UTC_INDEX;
+            hdr->chunk_meta = (uint16_t) ((1 << 12) | 1);
+            hdr->item_next = (c + 1 < cnt[1]) ? (uint64_t) IDX_OFF(1, c + 1) : 0;
+            return 0;
+        }
+    }
+    VERIF_UNREACHABLE("iteration reads a header at a position that holds no level-1 index chunk");
+    return JLS_ERROR_NOT_FOUND;
+}
+int32_t jls_raw_chunk_next(struct jls_raw_s * self) {
+    (void) self;
+    for (uint32_t c = 0; c < MAXC; ++c) {
+        if (c < cnt[1] && pos == IDX_OFF(1, c)) { pos = SUM_OF(c); return 0; }
+    }
+    return JLS_ERROR_EMPTY;
+}
+#endif
+
 int32_t jls_core_rd_chunk(struct jls_core_s * self) {
     ++n_reads;
+#ifdef MODE_UTC_ITERATE
+    for (uint32_t c = 0; c < MAXC; ++c) {
+        if (c < cnt[1] && pos == SUM_OF(c)) {
+            uint32_t n = N_FIXED - c * DF;
+            if (n > DF) { n = DF; }
+            struct jls_utc_summary_s * u = (struct jls_utc_summary_s *) self->buf->start;
+            u->header.timestamp = ts[c * DF];
+            u->header.entry_count = n;
+            u->header.entry_size_bits = 128;
+            u->header.rsv16 = 0;
+            for (uint32_t e = 0; e < DF; ++e) {
+                if (e < n) {
+                    u->entries[e].sample_id = ts[c * DF + e];
+                    u->entries[e].timestamp = 1000 + (int64_t) (c * DF + e);      /* identifies the entry */
+                }
+            }
+            self->chunk_cur.offset = pos;
+            self->chunk_cur.hdr.tag = JLS_TAG_TRACK_UTC_SUMMARY;
+            self->chunk_cur.hdr.chunk_meta = (uint16_t) ((1 << 12) | 1);
+            self->chunk_cur.hdr.payload_length = 16 + 16 * n;
+            self->chunk_cur.hdr.item_next = (c + 1 < cnt[1]) ? (uint64_t) SUM_OF(c + 1) : 0;
+            self->buf->length = 16 + 16 * n;
+            self->buf->cur = self->buf->start;
+            self->buf->end = self->buf->start + self->buf->length;
+            return 0;
+        }
+    }
+#endif
 #ifdef MODE_ITERATE
     CHECK(n_reads <= MAXL + 1 + N_FIXED, "seek + iteration read a bounded number of chunks");
     for (uint32_t i = 0; i < N_FIXED; ++i) {
@@ -68,6 +122,8 @@ int32_t jls_core_rd_chunk(struct jls_core_s * self) {
             return 0;
         }
     }
+#elif defined(MODE_UTC_ITERATE)
+    CHECK(n_reads <= MAXL + 1 + MAXC, "seek + iteration read a bounded number of chunks");
 #else
     CHECK(n_reads <= MAXL + 1, "seek reads at most one chunk per level");
 #endif
@@ -91,7 +147,11 @@ int32_t jls_core_rd_chunk(struct jls_core_s * self) {
                     }
                 }
                 self->chunk_cur.offset = pos;
+#ifdef MODE_UTC_ITERATE
+                self->chunk_cur.hdr.tag = JLS_TAG_TRACK_UTC_INDEX;
+#else
                 self->chunk_cur.hdr.tag = JLS_TAG_TRACK_ANNOTATION_INDEX;
+#endif
                 self->chunk_cur.hdr.chunk_meta = (uint16_t) ((l << 12) | 1);
                 self->chunk_cur.hdr.payload_length = 16 + 16 * n;
                 self->chunk_cur.hdr.item_next = (c + 1 < cnt[l]) ? (uint64_t) IDX_OFF(l, c + 1) : 0;
@@ -118,6 +178,29 @@ static int32_t anno_cbk(void * user_data, const struct jls_annotation_s * a) {
     if (n_cb == 0) { first_idx = i; } else if (i != last_idx + 1) { contiguous = false; }
     if (i < N_FIXED && a->timestamp != ts[i] - sid_offset) { ts_ok = false; }
     last_idx = i;
+    ++n_cb;
+    return (n_cb >= stop_after) ? 1 : 0;
+}
+#endif
+
+#ifdef MODE_UTC_ITERATE
+static uint32_t n_cb, n_ent;
+static uint32_t first_idx = 0xffffffffu, last_idx;
+static bool contiguous = true, ids_ok = true;
+static int64_t sid_offset;
+static uint32_t stop_after = 0xffffffffu;
+static int32_t utc_cbk(void * user_data, const struct jls_utc_summary_entry_s * utc, uint32_t size) {
+    (void) user_data;
+    for (uint32_t j = 0; j < DF; ++j) {
+        if (j < size) {
+            uint32_t i = (uint32_t) (utc[j].timestamp - 1000);
+            if (n_ent == 0) { first_idx = i; } else if (i != last_idx + 1) { contiguous = false; }
+            if (i < N_FIXED && utc[j].sample_id != ts[i] - sid_offset) { ids_ok = false; }
+            last_idx = i;
+            ++n_ent;
+        }
+    }
+    if (size > DF) { contiguous = false; }
     ++n_cb;
     return (n_cb >= stop_after) ? 1 : 0;
 }
@@ -156,14 +239,51 @@ void harness(void) {
         cnt[nlev + 1] = 1;
         nlev = nlev + 1;
     }
+#ifdef MODE_UTC_ITERATE
+    enum jls_track_type_e tt = JLS_TRACK_TYPE_UTC;
+#else
     enum jls_track_type_e tt = JLS_TRACK_TYPE_ANNOTATION;
+#endif
     s->tracks[tt].head_offsets[0] = DATA_OFF(0);
     for (uint32_t l = 1; l <= MAXL; ++l) {
         if (l <= nlev) { s->tracks[tt].head_offsets[l] = IDX_OFF(l, 0); }
     }
     SYM_I64(t);
     ASSUME(t > -((int64_t) 1 << 41) && t < ((int64_t) 1 << 41));
-#if defined(MODE_ITERATE)
+#if defined(MODE_UTC_ITERATE)
+    {
+    /* jls_core_utc: API sample ids are file sample ids minus the signal's first sample id; entries come in batches (one per level-1 chunk) */
+#ifdef SOFF_FIXED
+    const int64_t soff = SOFF_FIXED;
+#else
+    SYM_I64(soff);
+    ASSUME(soff > -((int64_t) 1 << 40) && soff < ((int64_t) 1 << 40));
+#endif
+    sid_offset = soff;
+    s->signal_def.sample_id_offset = soff;
+    SYM_U32(stop);
+    ASSUME(stop >= 1);
+    stop_after = stop;
+    int32_t rc = jls_core_utc(&core, 1, t - soff, utc_cbk, NULL);
+    CHECK(rc == 0, "iteration succeeds");
+    CHECK(contiguous, "UTC entries are delivered in write order without holes or repeats");
+    CHECK(ids_ok, "delivered sample ids are the written ones relative to the first sample id");
+    CHECK(stop > MAXC || n_cb <= stop, "a callback that asks to stop ends the iteration");
+    uint32_t k = (n_ent == 0) ? N_FIXED : first_idx;
+    if (stop > MAXC) {
+        CHECK(n_ent == 0 || last_idx == N_FIXED - 1, "iteration runs to the last entry");
+    }
+    SYM_U32(w);
+    ASSUME(w < N_FIXED);
+    if (ts[w] >= t) {
+        CHECK(w >= k, "every entry with sample id >= the requested one is delivered");
+    } else {
+        CHECK(w < k, "no entry earlier than the requested sample id is delivered");
+    }
+    WITNESS_END();
+    return;
+    }
+#elif defined(MODE_ITERATE)
     {
     /* the public iteration: API timestamps are file timestamps minus the signal's first sample id */
     SYM_I64(soff);
@@ -208,7 +328,7 @@ void harness(void) {
     for (uint32_t i = 0; i < N_FIXED; ++i) { if (pos == DATA_OFF(i)) { k = i; } }
     CHECK(k < N_FIXED, "seek(level 0) ends on a DATA chunk");
 #endif
-#ifndef MODE_ITERATE
+#if !defined(MODE_ITERATE) && !defined(MODE_UTC_ITERATE)
     SYM_U32(w);
     ASSUME(w < N_FIXED);
     if (ts[w] >= t) {
